@@ -316,6 +316,20 @@ theorem full_injectivity_is_false :
 
 /-! ## the hash value (SHA-256 inside the model) -/
 
+/-- the published SHA-256 vectors (FIPS 180-4 examples: empty, `abc`, the 448-bit and the 896-bit message; one-block /
+two-block padding boundary at 55 / 56 bytes) hold for the model — evaluated by the kernel, no axiom -/
+theorem sha256_published_vectors :
+    Sha256.hexDigest [] = "e3b0c44298fc1c149afbf4c8996fb92427ae41e4649b934ca495991b7852b855".toList ∧
+    Sha256.hexDigest (Sha256.utf8 "abc".toList) = "ba7816bf8f01cfea414140de5dae2223b00361a396177a9cb410ff61f20015ad".toList ∧
+    Sha256.hexDigest (Sha256.utf8 "abcdbcdecdefdefgefghfghighijhijkijkljklmklmnlmnomnopnopq".toList) =
+      "248d6a61d20638b8e5c026930c3e6039a33ce45964ff2167f6ecedd419db06c1".toList ∧
+    Sha256.hexDigest (Sha256.utf8
+      "abcdefghbcdefghicdefghijdefghijkefghijklfghijklmghijklmnhijklmnoijklmnopjklmnopqklmnopqrlmnopqrsmnopqrstnopqrstu".toList) =
+      "cf5b16a778af8380036ce59e7b0492370b249b11e8f07a51afac45037afee9d1".toList ∧
+    Sha256.hexDigest (List.replicate 55 0) = "02779466cdec163811d078815c633f21901413081449002f24aa3e80f0b88ef7".toList ∧
+    Sha256.hexDigest (List.replicate 56 0) = "d4817aa5497628e7c77e6b606107042bbba3130888c5f47a375e6179be789fbb".toList :=
+  ⟨Sha256.nist_empty, Sha256.nist_abc, Sha256.nist_448, Sha256.nist_896, Sha256.nist_55_zeros, Sha256.nist_56_zeros⟩
+
 /-- **Unconditional half of "the hash identifies the text"**: equal text ⇒ equal digest and equal 32-bit version
 hash (`hash32` and `digestHex` are functions of `rawText`). -/
 theorem equal_text_equal_hash (d₁ d₂ : Def) (h : rawText d₁ = rawText d₂) :
